@@ -23,7 +23,12 @@ RULE = ("case = a history of <= 30 steps over named variables drawn by Hypothesi
         "constructors also with the atoms of a private table (formula(str, table=T), T's atoms), f.change_table(T) "
         "and back, 'again' = an earlier constructor once more; counts written as zero ('0.', '0.0', '.0', '.00') in "
         "any position of a string; the empty formula made by formula(''), formula(), formula(None), Formula(), "
-        "formula([]), formula({}) with name/density keywords, as operand and as receiver of +=). "
+        "formula([]), formula({}) with name/density keywords, as operand and as receiver of +=; counts and "
+        "multipliers also as fractions.Fraction (a result into which only ints and Fractions went must be exactly "
+        "the model, whatever its type); 'retable' = the masses of every element and isotope of the private table "
+        "are rescaled (el._mass = ..., restored after the case) and every variable living on it is re-read; the "
+        "dicts returned by .atoms and .mass_fraction are cleared by the reader and read again (intact, new "
+        "object); structure is made of tuples). "
         "Oracle: a Fraction model per variable updated by the algebra; after every step the new/changed variable "
         "(and, again, each operand of the step) has atoms == model (exact where the library's count is an int, rel 1e-12 otherwise; an atom with count 0 counts as absent), "
         "mass == sum n*(m(base atom) - charge*electron_mass) (rel 1e-12), charge == sum n*charge "
@@ -90,7 +95,9 @@ def check_var(var, case, where):
         got[k] = n
     for k in sorted(set(got) | set(comp)):
         g, w = got.get(k, 0), comp.get(k, Fraction(0))
-        if isinstance(g, int) and not isinstance(g, bool) and w.denominator == 1:
+        if var.exact:
+            ok = g == w                 # only ints and Fractions went in: the count is exact, whatever its type
+        elif isinstance(g, int) and not isinstance(g, bool) and w.denominator == 1:
             ok = g == w
         else:
             ok = close(float(g), float(w))
@@ -98,6 +105,15 @@ def check_var(var, case, where):
             raise Violation("c02:atoms:%s" % var.origin,
                             "%s: count of %r is %r, sum over the parts is %s (formula %s)"
                             % (where, k, g, float(w), _s(f)), case)
+    # what a reader does with the returned dict is his business: the next reading is intact and a new object
+    keep = dict(atoms)
+    atoms.clear()
+    again = f.atoms
+    if again is atoms or again != keep:
+        raise Violation("c02:returned-dict-shared", "%s: after the caller cleared the dict returned by .atoms, "
+                        ".atoms is %r (was %r)" % (where, again, keep), case)
+    if not _immutable(f.structure):
+        raise Violation("c02:structure-mutable", "%s: structure %r is not made of tuples" % (where, f.structure), case)
     # mass
     e = Fraction(E["emass"])
     masses = dict((k, Fraction(base_mass(table, k)) - k[2] * e) for k in comp)
@@ -138,6 +154,12 @@ def check_var(var, case, where):
             raise Violation("c02:mass_fraction", "%s: mass fraction for absent atoms %r" % (where, extra), case)
         if abs(total - 1.0) > 1e-12:
             raise Violation("c02:mass_fraction:sum", "%s: mass fractions sum to %r" % (where, total), case)
+        keepmf = dict(mf)
+        mf.clear()
+        mf2 = f.mass_fraction
+        if mf2 is mf or mf2 != keepmf:
+            raise Violation("c02:returned-dict-shared", "%s: after the caller cleared the dict returned by "
+                            ".mass_fraction, .mass_fraction is %r (was %r)" % (where, mf2, keepmf), case)
     # the printed form and the Hill form are read too (a value remembered on the instance by any of these
     # readers and carried along by copy(self) would show up in the next operation's result); the Hill form is
     # formula({atom: count}) of the atoms and must have the model's composition
@@ -148,11 +170,17 @@ def check_var(var, case, where):
         hgot[atom_key(atom)] = hgot.get(atom_key(atom), 0) + n
     for k in sorted(set(hgot) | set(comp)):
         g, w = hgot.get(k, 0), comp.get(k, Fraction(0))
-        if not (g == w or close(float(g), float(w))):
+        if not (g == w or (not var.exact and close(float(g), float(w)))):
             raise Violation("c02:hill:atoms", "%s: count of %r in f.hill is %r, sum over the parts is %s (formula %s, hill %s)"
                             % (where, k, g, float(w), _s(f), _s(h)), case)
     if str(f) != text:
         raise Violation("c02:str:unstable", "%s: str(f) changed from %r to %r by reading .hill" % (where, text, str(f)), case)
+
+
+def _immutable(structure):
+    return isinstance(structure, tuple) and all(
+        isinstance(t, tuple) and len(t) == 2 and (not isinstance(t[1], (list, tuple)) or _immutable(t[1]))
+        for t in structure)
 
 
 def _s(f):
@@ -194,6 +222,12 @@ def check_history(ctx, history):
             if used != keep or type(used) is not type(keep):
                 raise Violation("c02:alias:%s:argument" % step.kind,
                                 "%s: the constructor changed its argument" % where, case)
+        if step.kind == "retable":
+            # the masses of the private table were changed: every formula living on it follows
+            for k, v in enumerate(vars_):
+                if v.table == "private":
+                    check_var(v, case, where + ": variable %d after the table's masses changed" % k)
+            return
         target = step.new if step.new is not None else step.changed
         check_var(vars_[target], case, where)
         # the operands are read again after the step (atoms, mass, charge, mass fractions, str, hill)
@@ -236,7 +270,7 @@ def check_history(ctx, history):
 
 def task_histories(ctx, n, steps=30):
     E = ops.env()
-    ctx.search("histories", ops.history(E["pool"], max_steps=steps, tables=True, zeros=True, empties=True), check_history, n)
+    ctx.search("histories", ops.history(E["pool"], max_steps=steps, tables=True, zeros=True, empties=True, retable=True, exact=True), check_history, n)
 
 
 def tasks(tier):
